@@ -59,8 +59,9 @@ ImplBase(gm) ==
 StripAll(q) == [i \in 1..Len(q) |-> Strip(q[i])]
 
 \* one iteration of the readline loop; `raw` is the line without terminator
-ImplLine(gm, raw) ==
-    LET line == raw \o gm.eol IN
+\* `term` is the line's terminator: gm.eol, or nothing for the last line of a map whose final line is unterminated (gm.open)
+ImplLine(gm, raw, term) ==
+    LET line == raw \o term IN
     IF Contains(line, "\t")                                   \* re.search("\t", line): gophermap link
     THEN LET args0 == StripAll(Split(line, "\t"))
              args  == IF Len(args0) < 2 \/ Len(args0[2]) = 0 THEN [args0 EXCEPT ![2] = From(args0[1], 2)] ELSE args0
@@ -87,7 +88,7 @@ ImplLine(gm, raw) ==
 
 \* an exception in prepare() is not an IOError: no listing at all
 ImplEntries(gm) ==
-    LET rs == [i \in 1..Len(gm.lines) |-> ImplLine(gm, gm.lines[i])] IN
+    LET rs == [i \in 1..Len(gm.lines) |-> ImplLine(gm, gm.lines[i], IF gm.open /\ i = Len(gm.lines) THEN "" ELSE gm.eol)] IN
     IF \E i \in 1..Len(rs) : rs[i].crash THEN [ok |-> FALSE, es |-> <<>>]
     ELSE [ok |-> TRUE, es |-> [i \in 1..Len(rs) |-> rs[i].e]]
 
